@@ -122,6 +122,7 @@ func (r *Run) FanoutBin(bin string, name string, n int, watchdog time.Duration, 
 			os.Remove(out)
 			a := append([]string{"worker", name, r.ID, r.Tier, strconv.FormatInt(r.Seed, 10), strconv.Itoa(w), strconv.Itoa(n), out}, args...)
 			cmd := exec.Command(bin, a...)
+			cmd.Env = append(os.Environ(), "VERIF_WORKER_INDEX="+strconv.Itoa(w))
 			var stderr bytes.Buffer
 			cmd.Stderr = &stderr
 			cmd.Stdout = &stderr
